@@ -59,8 +59,16 @@ fn gen_net(rng: &mut Rng) -> NetCfg {
     }
 }
 
+/// Protocol names: 0, 1 plain; 2 is not valid UTF-8; 3 is the lossy UTF-8 rendering of 2; 4 has
+/// name 1 as a proper prefix; 5 and 6 (plain / binary) are never registered.
 fn alpn(i: u8) -> Vec<u8> {
-    format!("sim/proto/{i}").into_bytes()
+    match i {
+        2 => b"sim/bin/\xff\x01".to_vec(),
+        3 => String::from_utf8_lossy(b"sim/bin/\xff\x01").into_owned().into_bytes(),
+        4 => b"sim/proto/10".to_vec(),
+        6 => b"sim/bin/\xff\x02".to_vec(),
+        i => format!("sim/proto/{i}").into_bytes(),
+    }
 }
 
 // =========================================================================================
@@ -79,7 +87,7 @@ pub enum Verdict {
 #[derive(Clone, Debug, Serialize, Deserialize)]
 pub struct Dial {
     pub client: u8,
-    /// first offered ALPN and additional ones (indices; >= 4 are never registered)
+    /// first offered ALPN and additional ones (indices; >= 5 are never registered)
     pub alpns: Vec<u8>,
     pub gap_ms: u64,
 }
@@ -130,7 +138,7 @@ impl Typed for C40 {
 
     fn gen_case(&self, rng: &mut Rng, _tier: Tier) -> C40Case {
         let n_reg = rng.range(1, 4) as usize;
-        let mut registered: Vec<u8> = (0..4u8).collect();
+        let mut registered: Vec<u8> = (0..5u8).collect();
         rng.shuffle(&mut registered);
         registered.truncate(n_reg);
         let filter = if rng.coin() {
@@ -151,7 +159,7 @@ impl Typed for C40 {
         let dials = (0..rng.range(1, 4))
             .map(|_| Dial {
                 client: rng.range(0, 1) as u8,
-                alpns: (0..rng.range(1, 3)).map(|_| rng.range(0, 5) as u8).collect(),
+                alpns: (0..rng.range(1, 3)).map(|_| rng.range(0, 6) as u8).collect(),
                 gap_ms: rng.range(0, 50),
             })
             .collect();
@@ -610,6 +618,8 @@ pub enum DialKind {
     /// like Normal, but the dialer converts the attempt to 0-RTT when a session ticket allows it
     /// and waits for `handshake_completed`
     ZeroRtt,
+    /// empty primary protocol name, but a valid additional one in the connect options
+    EmptyAlpnWithAdditional,
     SelfDial,
     EmptyAlpn,
 }
@@ -658,7 +668,7 @@ impl Typed for C42 {
             net: if rng.coin() { NetCfg::default() } else { gen_net(rng) },
             client_hooks: (0..rng.range(0, 3)).map(|_| gen_hook(rng)).collect(),
             server_hooks: (0..rng.range(0, 3)).map(|_| gen_hook(rng)).collect(),
-            dials: (0..rng.range(1, 4)).map(|_| match rng.below(8) { 0 => DialKind::SelfDial, 1 => DialKind::EmptyAlpn, 2 | 3 => DialKind::ZeroRtt, _ => DialKind::Normal }).collect(),
+            dials: (0..rng.range(1, 4)).map(|_| match rng.below(9) { 0 => DialKind::SelfDial, 1 => DialKind::EmptyAlpn, 2 | 3 => DialKind::ZeroRtt, 8 => DialKind::EmptyAlpnWithAdditional, _ => DialKind::Normal }).collect(),
             seed: rng.next_u64(),
         }
     }
@@ -733,9 +743,16 @@ impl Typed for C42 {
                 let (target, a): (EndpointAddr, Vec<u8>) = match kind {
                     DialKind::Normal | DialKind::ZeroRtt => (EndpointAddr::new(secret(0).public()), dial_alpn(i)),
                     DialKind::SelfDial => (EndpointAddr::new(secret(1).public()), dial_alpn(i)),
-                    DialKind::EmptyAlpn => (EndpointAddr::new(secret(0).public()), vec![]),
+                    DialKind::EmptyAlpn | DialKind::EmptyAlpnWithAdditional => (EndpointAddr::new(secret(0).public()), vec![]),
                 };
-                let res: Result<Result<Connection, String>, _> = if *kind == DialKind::ZeroRtt {
+                let res: Result<Result<Connection, String>, _> = if *kind == DialKind::EmptyAlpnWithAdditional {
+                    tokio::time::timeout(Duration::from_secs(40), async {
+                        let opts = ConnectOptions::new().with_additional_alpns(vec![dial_alpn(i)]);
+                        let connecting = client.connect_with_opts(target, &a, opts).await.map_err(|e| format!("{e:#}"))?;
+                        connecting.await.map_err(|e| format!("{e:#}"))
+                    })
+                    .await
+                } else if *kind == DialKind::ZeroRtt {
                     let zero_rtt_used = &mut zero_rtt_used;
                     tokio::time::timeout(Duration::from_secs(40), async {
                         let connecting = client.connect_with_opts(target, &a, ConnectOptions::new()).await.map_err(|e| format!("{e:#}"))?;
@@ -789,9 +806,9 @@ impl Typed for C42 {
                         .collect()
                 };
                 match kind {
-                    DialKind::SelfDial | DialKind::EmptyAlpn => {
+                    DialKind::SelfDial | DialKind::EmptyAlpn | DialKind::EmptyAlpnWithAdditional => {
                         if o.established {
-                            ctx.violate(if *kind == DialKind::SelfDial { "self-dial-succeeded" } else { "empty-alpn-dial-succeeded" }, format!("dial {i}"));
+                            ctx.violate(if *kind == DialKind::SelfDial { "self-dial-succeeded" } else { "empty-alpn-dial-succeeded" }, format!("dial {i} ({kind:?})"));
                             return;
                         }
                         ctx.count(if *kind == DialKind::SelfDial { "probe.self_dial_refused" } else { "probe.empty_alpn_refused" });
